@@ -359,9 +359,9 @@ def norm(t):
 
 def unpack(n):
     """inverse of the Coq `pack`: (member V, holds (None/bool) as ("Some", b) or None, (in Np, in Nn), (clauses), guard)"""
-    bits = [(n >> k) & 1 == 1 for k in range(12)]
+    bits = [(n >> k) & 1 == 1 for k in range(13)]
     holds = ("Some", bits[1]) if bits[2] else None
-    return (bits[0], holds, (bits[3], bits[4]), (bits[5], bits[6], bits[7], bits[8], bits[9], bits[10]), bits[11])
+    return (bits[0], holds, (bits[3], bits[4]), (bits[5], bits[6], bits[7], bits[8], bits[9], bits[10], bits[11]), bits[12])
 
 
 def model_lit(t):
@@ -1040,9 +1040,7 @@ def has_boolop(c):
 
 def simple_boolop(c):
     """not* (a and/or b) with a, b free of and/or: the end-to-end value is Model.narrow_e2e exactly."""
-    while c[0] == "not":
-        c = c[1]
-    return c[0] in ("and", "or") and not has_boolop(c[1]) and not has_boolop(c[2])
+    return has_boolop(c)  # since phase 3 the scope merge is modelled recursively (Model.boolop_merge)
 
 
 def leaves_of(c):
@@ -1105,6 +1103,50 @@ def case_src(i, v, c):
 
 PRELUDE = ("from typing import Any, Literal, Type, Union\nfrom collections.abc import Mapping, Sequence\nfrom qcore.asserts import assert_is, assert_is_instance, assert_is_not\nfrom typing_extensions import TypeGuard, TypeIs\nfrom c02_universe import *\n"
            "def opq() -> bool:\n    raise NotImplementedError\n")
+
+
+# ---------------------------------------------------------------------------
+# oracle-only stream (no model): conditions whose *value* is a union of constrained members
+# (`A if f() else B`, `y = A and B; if y:`): the constraint is stacked_scopes.AlternativesConstraint,
+# whose negation is again a disjunction.  An object may take the positive branch if A or B holds for it,
+# the negative branch if A or B fails for it; either way it has to be in the value of that branch.
+
+SAFE_VALUES = [(("typed", "int"), ()), (("typed", "str"), ()), (("typed", "bool"), ()), (("known", ("none",)), ()), (("tuple", ((False, "int"),)), ()),
+               (("tuple", ((False, "int"), (False, "str"))), ()), (("tuple", ((True, "int"),)), ()), (("gen", ("list", "int")), ()), (("known", ("int", 1)), ()),
+               (("known", ("str", "a")), ()), (("typed", "object"), ())]
+SAFE_LEAVES = [("isinstance", ("int",)), ("isinstance", ("str",)), ("isinstance", ("tuple",)), ("isinstance", ("int", "str")), ("is", ("none",)),
+               ("eq", ("int", 1)), ("eq", ("str", "a")), ("in", (("int", 1), ("str", "a"))), ("not", ("is", ("none",))), ("not", ("isinstance", ("str",))),
+               ("not", ("eq", ("int", 1))), ("isinstance", ("list",)), ("isinstance", ("NoneType",)), ("isinstance", ("bool",))]
+
+
+def alt_cases(rng, n):
+    out = []
+    for _ in range(n):
+        v = tuple(dict.fromkeys(rng.choice(SAFE_VALUES) for _ in range(rng.choice([2, 3, 3]))))
+        a, b = rng.choice(SAFE_LEAVES), rng.choice(SAFE_LEAVES)
+        out.append((v, rng.choice(["ifexp", "andvalue", "orvalue"]), a, b))
+    return out
+
+
+def alt_src(i, v, shape, a, b):
+    ann = value_src(v)
+    ea, eb = cond_src(a, [], i), cond_src(b, [], i)
+    if shape == "ifexp":
+        return f"def f_{i}(x: {ann}):\n    if ({ea}) if opq() else ({eb}):\n        M1 = x\n    else:\n        M2 = x\n"
+    op = "and" if shape == "andvalue" else "or"
+    return f"def f_{i}(x: {ann}):\n    y_ = ({ea}) {op} ({eb})\n    if y_:\n        M1 = x\n    else:\n        M2 = x\n"
+
+
+def alt_may_take(shape, a, b, o, pol):
+    """can an object take this branch for some value of the opaque flag?"""
+    try:
+        ha, hb = py_holds(a, o), py_holds(b, o)
+    except Raises:
+        return False
+    if shape == "ifexp":
+        return ha == pol or hb == pol
+    res = (ha and hb) if shape == "andvalue" else (ha or hb)
+    return res == pol
 
 
 def impl_e2e(srcs):
@@ -1204,7 +1246,8 @@ def all_leaves():
         for n in (0, 1, 2):
             out.append(("len", op, n))
     out += [("rlen", "<", 1), ("rlen", ">=", 2), ("rlen", "==", 2), ("rlen", ">", 0)]
-    for t in [(("typed", "int"),), (("typed", "int"), ("typed", "str")), (("known", ("int", 1)),), (("sub", "A"),), (("typed", "float"),), (("known", ("none",)), ("typed", "A")), (("typed", "tuple"),), (("typed", "C"),)]:
+    for t in [(("typed", "int"),), (("typed", "int"), ("typed", "str")), (("known", ("int", 1)),), (("sub", "A"),), (("typed", "float"),), (("known", ("none",)), ("typed", "A")), (("typed", "tuple"),), (("typed", "C"),),
+              (("gen", ("list", "str")),), (("gen", ("list", "int")),), (("gen", ("dict", "str", "int")),), (("gen", ("list", "int")), ("typed", "str"))]:
         out.append(("typeis", t))
     for t in [((("typed", "int"), ()),), ((("typed", "A"), ()), (("known", ("none",)), ())), ((("tuple", ((False, "int"),)), ()),)]:
         out.append(("typeguard", t))
@@ -1214,6 +1257,7 @@ def all_leaves():
     out += [("pat", p) for p in all_patterns()]
     # assert-style constraint types (is_instance, is_value, add_annotation)
     out += [("assertinst", c) for c in ("int", "float", "bool", "str", "A", "B", "C", "tuple", "object", "type", "EnumMeta", "list")]
+    out += [("not", ("assertinst", c)) for c in ("int", "float", "complex", "A", "object")]
     out += [("assertis", l) for l in SINGLETON_LITS] + [("not", ("assertis", l)) for l in SINGLETON_LITS[:4]]
     out += [("hasattr", "__class__", True), ("hasattr", "no_such_attr_", False)]
     # the parts of a sequence / mapping pattern on their own (constrain_value route only)
@@ -1268,9 +1312,10 @@ def load_corpus():
 
 
 def gen_files():
-    from translate import narrowpreds
+    from translate import narrowpreds, narrowsrc
 
-    return {"NarrowTable.v": narrowtable.translate(str(lib.REPO)), "NarrowPreds.v": narrowpreds.translate(str(lib.REPO))}
+    return {"NarrowTable.v": narrowtable.translate(str(lib.REPO)), "NarrowPreds.v": narrowpreds.translate(str(lib.REPO)),
+            "NarrowSrc.v": narrowsrc.translate(str(lib.REPO))}
 
 
 # ---------------------------------------------------------------------------
@@ -1282,6 +1327,7 @@ FINDINGS = {
     "enum_class_object": "C02-enum-class-literal",
     "sequence_pattern_str": "C02-sequence-pattern-str",
     "assert_promotion": "C02-assert-promotion",
+    "generic_pattern_negative": "C02-generic-typeis-negative",
 }
 COQ_HEADER = ("From Coq Require Import ZArith List Bool NArith. Import ListNotations.\n"
               "Require Import PV.Narrow.Base PV.Narrow.Model PV.Narrow.Guards.\n"
@@ -1366,11 +1412,11 @@ def run(tier: str, replay: str | None = None):
                  "Definition UNIV_INFO := Eval vm_compute in map (fun o => (o, (subclass_bool o, multiple_inheritance o, wf_obj o))) UNIV.\n")
         FULL_TAIL = ("map (fun (oi : obj * (bool * bool * bool)) => let '(o, (sb, mi, wf)) := oi in "
                      "let h := holds c o in let pn := promotion_negative c o in let ec := enum_class_object o in "
-                     "let ss := sequence_pattern_str c o in let ap := assert_promotion c o in pack "
+                     "let ss := sequence_pattern_str c o in let ap := assert_promotion c o in let gp := generic_pattern_negative c o in pack "
                      "[member o V; match h with Some b => b | None => false end; "
                      "match h with Some _ => true | None => false end; "
-                     "member o Np; member o Nn; pn; sb; mi; ec; ss; ap; "
-                     "wf && cond_ok c o && negb mi && negb sb && negb pn && negb ec && negb ss && negb ap]) UNIV_INFO")
+                     "member o Np; member o Nn; pn; sb; mi; ec; ss; ap; gp; "
+                     "wf && cond_ok c o && negb mi && negb sb && negb pn && negb ec && negb ss && negb ap && negb gp]) UNIV_INFO")
 
         def model_term(v, c, full):
             return (f"(let V := {value_coq(v)} in let c := {cond_coq(c)} in "
@@ -1440,6 +1486,28 @@ def run(tier: str, replay: str | None = None):
     except Exception as ex:
         e2e = {}
         rep.violation({"kind": "broken-correspondence", "correspondence": "Model.narrow vs annotate_code (end to end)", "detail": repr(ex)[-1500:]}, no_failing_input=True)
+
+    # 3b. oracle-only stream for union-valued conditions (AlternativesConstraint)
+    alts = alt_cases(random.Random(lib.seed() * 7331 + 5), 0 if replay else (120 if tier == "quick" else 1500))
+    alt_failures = []
+    try:
+        alt_res = impl_e2e({k: alt_src(k, *ac) for k, ac in enumerate(alts)}) if alts else {}
+        for k, (v, shape, a, b) in enumerate(alts):
+            outs = alt_res.get(k)
+            if not outs:
+                continue
+            for pol, out in zip((True, False), outs):
+                if not isinstance(out, frozenset):
+                    continue
+                for lo, o in zip(objs, pyobjs):
+                    if py_member(o, v) and py_cond_ok(a, o) and py_cond_ok(b, o) and alt_may_take(shape, a, b, o, pol) and not py_member(o, tuple(out)):
+                        alt_failures.append((k, pol, lo, sorted(map(str, out))))
+    except Exception as ex:
+        rep.violation({"kind": "broken-correspondence", "correspondence": "oracle-only stream (union-valued conditions)", "detail": repr(ex)[-1500:]}, no_failing_input=True)
+    for (k, pol, lo, out) in alt_failures[:3]:
+        v, shape, a, b = alts[k]
+        rep.violation({"kind": "failing-input", "route": "e2e-union-valued-condition", "input": {"value": v, "shape": shape, "a": a, "b": b}, "branch": pol, "object": lit_src(lo),
+                       "source": alt_src(k, v, shape, a, b), "observed": out, "expected": "an object that can take the branch stays in the value of that branch"})
 
     _t["e2e"] = _time.time()
     # 4. model: join the evaluation thread started above
@@ -1577,12 +1645,14 @@ def run(tier: str, replay: str | None = None):
         attributed = None
         if model is not None and kind in ("lost", "always_true_wrong") and model[i][3]:
             mo = unpack(model[i][3][j])
-            clauses = dict(zip(("promotion_negative", "subclass_bool", "multiple_inheritance", "enum_class_object", "sequence_pattern_str", "assert_promotion"), mo[3]))
+            clauses = dict(zip(("promotion_negative", "subclass_bool", "multiple_inheritance", "enum_class_object", "sequence_pattern_str", "assert_promotion", "generic_pattern_negative"), mo[3]))
             if kind == "lost":
-                impl_out = api[i][0 if pol else 1] if rname == "api" else e2e[i][0 if pol else 1]
-                mout = model_value(model[i][0 if pol else 1])
-                model_predicts = not (mo[2][0] if pol else mo[2][1])
-                same = impl_out == mout
+                # "the implementation behaves on it as the model predicts": the correspondence check of this
+                # very output (route, branch) passed — exact, narrow_e2e, or extensional, whichever applies —
+                # and the model's value for that route loses the object too
+                same = not any(ci == i and what.startswith(f"{rname}:{pol}") for (ci, what, _iv, _mv) in corr)
+                mval = model_value(model[i][4][0 if pol else 1]) if (rname == "e2e" and simple_boolop(cases[i][1])) else model_value(model[i][0 if pol else 1])
+                model_predicts = not py_member(pyobjs[j], tuple(mval))
             else:
                 model_predicts = True
                 same = boolab[i][0] == model[i][2]
@@ -1623,7 +1693,7 @@ def run(tier: str, replay: str | None = None):
         rep.violation(payload(i, {"kind": "broken-correspondence", "correspondence": f"Narrow.Model.narrow/boolab_of vs constrain_value/annotate_code/get_boolability [{what}]",
                                   "observed": iv, "model": mv, "mismatches": len(corr)}), no_failing_input=True)
     if broken_translation and not found_input:
-        rep.violation({"kind": "broken-obligation", "theorem": "Gen/NarrowTable.v / Gen/NarrowPreds.v (translators)", "detail": broken_translation}, no_failing_input=True)
+        rep.violation({"kind": "broken-obligation", "theorem": "Gen/NarrowTable.v / Gen/NarrowPreds.v / Gen/NarrowSrc.v (translators)", "detail": broken_translation}, no_failing_input=True)
     if proof is not None and not proof.ok and not found_input:
         rep.violation({"kind": "broken-obligation", "theorem": "; ".join(proof.broken), "log": proof.log[-1500:]}, no_failing_input=True)
     if spec_mismatch:
@@ -1644,6 +1714,8 @@ def run(tier: str, replay: str | None = None):
         oracle_failures_attributed={k: True for k in known_hits},
         spec_vs_cpython_pairs=len(full_idx) * len(objs) if model is not None else 0,
         exhaustive=(tier == "thorough" and not replay),
+        union_valued_condition_cases=len(alts),
+        union_valued_condition_failures=len(alt_failures),
         stage_seconds={"impl_api": round(_t["api"] - _t["start"], 1), "impl_e2e": round(_t["e2e"] - _t["api"], 1),
                        "model_vm_compute": round(_t["model"] - _t["e2e"], 1), "oracle_and_verdicts": round(_time.time() - _t["model"], 1)},
     )
